@@ -56,7 +56,7 @@ func genBody(r *core.RNG, tier string) *bodySpec {
 	// most multi-block bodies stay small; now and then one exceeds a MiB after
 	// compression, so that coverage gaps tied to a buffer size have a chance
 	max := 256 << 10
-	if r.Chance(1, 4) {
+	if r.Chance(1, 2) {
 		max = 1600 << 10
 	}
 	if tier == "thorough" {
@@ -69,7 +69,7 @@ func genBody(r *core.RNG, tier string) *bodySpec {
 		kind := []string{"random", "zeros", "text"}[r.Intn(3)]
 		return &bodySpec{Kind: kind, Len: n, Seed: r.U64()}
 	}
-	switch r.Pick([]int{8, 6, 22, 20, 18, 10, 6, 4}) {
+	switch r.Pick([]int{8, 6, 22, 20, 18, 10, 9, 4}) {
 	case 0:
 		return &bodySpec{Kind: "empty"}
 	case 1:
@@ -83,6 +83,10 @@ func genBody(r *core.RNG, tier string) *bodySpec {
 	case 5:
 		return &bodySpec{Kind: "zeros", Len: r.Range(1, 100000)}
 	case 6:
+		if max > 1<<20 && r.Chance(1, 2) {
+			// above a MiB after compression: random bytes do not shrink
+			return &bodySpec{Kind: "random", Len: r.Range(1100<<10, max), Seed: r.U64()}
+		}
 		return &bodySpec{Kind: "random", Len: r.Range(66000, max), Seed: r.U64()}
 	default:
 		return &bodySpec{Kind: "corpus", Corpus: "NC_001422.gb", Repeat: r.Range(3, 10)}
